@@ -19,3 +19,9 @@ def nx_binary(name, main_src, extra_src=(), extra_deps=()):
     objs = nx_objects()
     return vbuild.harness(name, NX_COMMON + [main_src] + list(extra_src), objs, flags=HFLAGS,
                           libs=["-ldl"], deps=NX_DEPS + list(extra_deps))
+
+
+def lx_binary(name, src):
+    d, objs = vbuild.ninja_objects("plain")
+    return vbuild.harness(name, ["src/common/simfs.cc", src], objs, flags=HFLAGS, libs=["-ldl"],
+                          deps=["src/common/simfs.h", "src/common/ixutil.h", "src/common/vjson.h", "src/common/logparse.h"])
